@@ -12082,7 +12082,7 @@ Tree_get_node_argument(Tree *self, PyObject *args, int *node)
     if (Tree_check_state(self) != 0) {
         goto out;
     }
-    if (!PyArg_ParseTuple(args, "I", node)) {
+    if (!PyArg_ParseTuple(args, "O&", tsk_id_converter, node)) {
         goto out;
     }
     if (Tree_check_bounds(self, *node)) {
@@ -12116,7 +12116,7 @@ Tree_is_descendant(Tree *self, PyObject *args)
     if (Tree_check_state(self) != 0) {
         goto out;
     }
-    if (!PyArg_ParseTuple(args, "II", &u, &v)) {
+    if (!PyArg_ParseTuple(args, "O&O&", tsk_id_converter, &u, tsk_id_converter, &v)) {
         goto out;
     }
     if (Tree_check_bounds(self, (tsk_id_t) u)) {
@@ -13630,16 +13630,16 @@ LdCalculator_get_r2(LdCalculator *self, PyObject *args)
 {
     int err;
     PyObject *ret = NULL;
-    Py_ssize_t a, b;
+    tsk_id_t a, b;
     double r2;
 
     if (LdCalculator_check_state(self) != 0) {
         goto out;
     }
-    if (!PyArg_ParseTuple(args, "nn", &a, &b)) {
+    if (!PyArg_ParseTuple(args, "O&O&", tsk_id_converter, &a, tsk_id_converter, &b)) {
         goto out;
     }
-    err = tsk_ld_calc_get_r2(self->ld_calc, (tsk_id_t) a, (tsk_id_t) b, &r2);
+    err = tsk_ld_calc_get_r2(self->ld_calc, a, b, &r2);
     if (err != 0) {
         handle_library_error(err);
         goto out;
@@ -13657,7 +13657,7 @@ LdCalculator_get_r2_array(LdCalculator *self, PyObject *args, PyObject *kwds)
     PyArrayObject *array = NULL;
     static char *kwlist[]
         = { "source_index", "direction", "max_sites", "max_distance", NULL };
-    Py_ssize_t source_index;
+    tsk_id_t source_index;
     Py_ssize_t max_sites = -1;
     double max_distance = DBL_MAX;
     int direction = TSK_DIR_FORWARD;
@@ -13668,8 +13668,8 @@ LdCalculator_get_r2_array(LdCalculator *self, PyObject *args, PyObject *kwds)
     if (LdCalculator_check_state(self) != 0) {
         goto out;
     }
-    if (!PyArg_ParseTupleAndKeywords(args, kwds, "n|ind", kwlist, &source_index,
-            &direction, &max_sites, &max_distance)) {
+    if (!PyArg_ParseTupleAndKeywords(args, kwds, "O&|ind", kwlist, tsk_id_converter,
+            &source_index, &direction, &max_sites, &max_distance)) {
         goto out;
     }
     if (direction != TSK_DIR_FORWARD && direction != TSK_DIR_REVERSE) {
@@ -13692,7 +13692,7 @@ LdCalculator_get_r2_array(LdCalculator *self, PyObject *args, PyObject *kwds)
         ret = PyErr_NoMemory();
         goto out;
     }
-    err = tsk_ld_calc_get_r2_array(self->ld_calc, (tsk_id_t) source_index, direction,
+    err = tsk_ld_calc_get_r2_array(self->ld_calc, source_index, direction,
         (tsk_size_t) max_sites, max_distance, data, &num_r2_values);
     if (err != 0) {
         handle_library_error(err);
